@@ -2537,6 +2537,9 @@ class Engine:
                 self.pc.append((out.length == 0) == z3.ForAll([t], z3.Implies(z3.And(0 <= t, t < n), z3.Not(cond_at(z3.Select(itv.arr, t))))))
                 self.pc.append(z3.ForAll([t], z3.Implies(z3.And(0 <= t, t < out.length), cond_at(z3.Select(out.arr, t)))))
                 return out
+        pm = self.match_pairlits(e, env)
+        if pm is not None:
+            return pm
         if len(e.generators) != 1 or e.generators[0].ifs:
             raise Unsupported('comprehension shape')
         g = e.generators[0]
@@ -2882,6 +2885,51 @@ class Engine:
                 and isinstance(g1.iter, ast.Name) and g1.iter.id == outer
                 and isinstance(g2.iter, ast.Name) and g2.iter.id == g1.target.id
                 and isinstance(elt.elt, ast.Name) and elt.elt.id == g2.target.id)
+
+    def match_pairlits(self, e, env):
+        """[e(u, v) for u, v in combinations(S, 2)] / [-e(u, v) ...] over an abstract list S, e a group whose call contract returns
+        cvar(g, u, v): the spec term pairlits(g, S) (resp. its negation).  The call is evaluated ONCE for a generic pair of positions
+        p < q of S, so that its preconditions / refusal clauses are obligations for every pair."""
+        if len(e.generators) != 1 or e.generators[0].ifs:
+            return None
+        g = e.generators[0]
+        it = g.iter
+        if not (isinstance(it, ast.Call) and len(it.args) == 2 and isinstance(it.args[1], ast.Constant) and it.args[1].value == 2 and not it.keywords
+                and isinstance(g.target, ast.Tuple) and len(g.target.elts) == 2 and all(isinstance(x, ast.Name) for x in g.target.elts)):
+            return None
+        fn = self.eval(it.func, env)
+        imp = self.modinfo['imports']
+        if not (isinstance(fn, tuple) and fn[0] == 'global' and (imp.get(fn[1]) == ('itertools', 'combinations') or fn[1] == 'itertools.combinations')):
+            return None
+        S = self.eval(it.args[0], env)
+        if not (isinstance(S, VSeq) and S.sortname == 'ISeq'):
+            return None
+        p_, q_ = self.fresh('pair_p'), self.fresh('pair_q')
+        e2 = dict(env)
+        e2[g.target.elts[0].id] = specs.iget(S.term, p_)
+        e2[g.target.elts[1].id] = specs.iget(S.term, q_)
+        saved = len(self.pc)
+        self.pc.append(z3.And(0 <= p_, p_ < q_, q_ < specs.ilen(S.term)))
+        self.generic_elem = getattr(self, 'generic_elem', 0) + 1
+        try:
+            body = self.eval(e.elt, e2)
+        finally:
+            self.generic_elem -= 1
+            if not isinstance(sys.exc_info()[1], PyExc):
+                del self.pc[saved:]
+        if not (is_z3(body) and z3.is_int(body)):
+            raise Unsupported('comprehension over pairs of an abstract list: element is not an int')
+        body = z3.simplify(body)
+        neg = False
+        core_ = body
+        if z3.is_app(core_) and core_.decl().kind() == z3.Z3_OP_UMINUS:
+            neg, core_ = True, core_.arg(0)
+        elif z3.is_app(core_) and core_.decl().kind() == z3.Z3_OP_MUL and core_.num_args() == 2 and z3.is_int_value(core_.arg(0)) and core_.arg(0).as_long() == -1:
+            neg, core_ = True, core_.arg(1)
+        if not (z3.is_app(core_) and core_.decl().name() == 'cvar' and core_.arg(1).eq(specs.iget(S.term, p_)) and core_.arg(2).eq(specs.iget(S.term, q_))):
+            raise Unsupported('comprehension over pairs of an abstract list: element is not the variable of the pair')
+        t = specs.pairlits(core_.arg(0), S.term)
+        return VSeq(specs.ineg(t) if neg else t)
 
     def ev_ListComp_concrete(self, e, env, xs):
         g = e.generators[0]
@@ -3775,7 +3823,7 @@ def sf_mapcall(eng, node, g, n, m, index):
 
 
 SPEC_FUNCS = {
-    'combs2': lambda eng, node, lo, hi: VCombs2(toz(lo), toz(hi)), 'cvar': _wrap(specs.cvar), 'degsum': _wrap(specs.degsum), 'gadj': _wrap(specs.gadj), 'pvar': _wrap(specs.pvar), 'isqf': _wrap(specs.isqf), 'sqr': _wrap(specs.sqr), 'mhas': lambda eng, node, m, k: z3.Select(m.present, _term(k)), 'mget': lambda eng, node, m, k: z3.Select(m.val, _term(k)), 'glo': lambda eng, node, g, i: z3.Select(g.lo, toz(i)), 'ghi': lambda eng, node, g, i: z3.Select(g.hi, toz(i)),
+    'combs2': lambda eng, node, lo, hi: VCombs2(toz(lo), toz(hi)), 'cvar': _wrap(specs.cvar), 'degsum': _wrap(specs.degsum), 'gadj': _wrap(specs.gadj), 'pvar': _wrap(specs.pvar), 'isqf': _wrap(specs.isqf), 'pairlits': _wrap(specs.pairlits), 'sqr': _wrap(specs.sqr), 'mhas': lambda eng, node, m, k: z3.Select(m.present, _term(k)), 'mget': lambda eng, node, m, k: z3.Select(m.val, _term(k)), 'glo': lambda eng, node, g, i: z3.Select(g.lo, toz(i)), 'ghi': lambda eng, node, g, i: z3.Select(g.hi, toz(i)),
     'gsingle': lambda eng, node, g, i: z3.Select(g.single, toz(i)), 'cnb': _wrap(specs.cnb), 'isorted': _wrap(specs.isorted), 'nbj': _wrap(specs.nbj), 'nbv': _wrap(specs.nbv), 'lnbrs': _wrap(specs.lnbrs),
     'mapcall': sf_mapcall, 'mrow': _wrap(specs.mrow), 'mcol': _wrap(specs.mcol),
     'evnest': _wrap(specs.evnest), 'dedges': _wrap(specs.dedges),
